@@ -449,6 +449,12 @@ pub fn run(tier: Tier) -> i32 {
     small_exports.extend(exports_from_families.into_inner().unwrap());
     // importer: perturbations of small exports + all short files over a line alphabet
     let mut files: Vec<(String, Vec<u8>)> = vec![];
+    for pad in 0..4usize {
+        for n_chars in [39usize, 40, 41, 42, 43, 85, 86, 128] {
+            files.push(("only-multibyte-line".into(), format!("{}{}\n", "x".repeat(pad), "\u{20ac}".repeat(n_chars)).into_bytes()));
+            files.push(("multibyte-second-line".into(), format!("1 3\n{}{}\n", "x".repeat(pad), "\u{00e9}".repeat(n_chars + 20)).into_bytes()));
+        }
+    }
     let tok_alpha = ["0", "1", "2", "3", "161", "4294967296", "18446744073709551615", "18446744073709551616", "-1", "XOR", "AND", "INV", "EQ", "x", "1.5", ""];
     for (ei, t) in small_exports.iter().enumerate() {
         files.push(("export-original".into(), t.clone().into_bytes()));
@@ -467,6 +473,17 @@ pub fn run(tier: Tier) -> i32 {
                 files.push(("line-swap".into(), l.join("\n").into_bytes()));
             }
             files.push(("line-prefix".into(), lines[..i].join("\n").into_bytes()));
+            // a long line whose 120th / 128th / 256th byte falls inside a multi-byte character (error
+            // messages that quote or shorten the offending line must cut at a character boundary)
+            if ei < 3 {
+                for pad in 0..3usize {
+                    for n_chars in [40usize, 43, 86, 90] {
+                        let mut l: Vec<String> = lines.iter().map(|x| x.to_string()).collect();
+                        l[i] = format!("{}{} {}", lines[i], "x".repeat(pad), "\u{20ac}".repeat(n_chars));
+                        files.push(("line-long-multibyte-tail".into(), l.join("\n").into_bytes()));
+                    }
+                }
+            }
         }
         if tier == Tier::Thorough || ei < 6 {
             for k in (0..t.len()).step_by(tier.pick(3, 1)) {
